@@ -28,7 +28,8 @@ THEOREMS = ["ESV.Beh.check_sound", "ESV.Beh.validate_sound", "ESV.C01.routine_va
             "ESV.C01Frontend.frontend_wfl", "ESV.C01Frontend.compile_backend_equiv",
             "ESV.C01Frontend.duplicate_user_label_counterexample",
             # code generator / whole compiler correct on fragment F0 (straight-line routines)
-            "ESV.C01Frontend.codegen_correct_F0", "ESV.C01Frontend.compile_correct_F0"]
+            "ESV.C01Frontend.codegen_correct_F0", "ESV.C01Frontend.compile_correct_F0",
+            "ESV.C01Frontend.codegen_correct_F1", "ESV.C01Frontend.compile_correct_F1", "ESV.Beh.E_sound"]
 
 
 def table_mismatch(ast: dict, res: dict) -> str | None:
@@ -100,6 +101,8 @@ def wfl_tie(run: core.Run, drv: Any, ok_cases: list, jobs: int) -> Counter:
             st["tosrc_agree"] += 1
             if rep.get("f0"):
                 st["in_F0"] += 1
+            if rep.get("f1"):
+                st["in_F1"] += 1
         else:
             st["tosrc_differs"] += 1
             tshown += 1
